@@ -10,3 +10,23 @@ def register(reg):
         "Held = no answer off by more than 1e-9*L on the executions observed.",
         "Trusted: oracle closed forms (verif/oracles.py), scipy NNLS/Qhull for hull membership. Covers only generated inputs.",
         "DESIGN.md section 4 C03")
+
+    reg("C04",
+        "runtime oracle monitor on aabb() outputs (per-axis support values), pair consequence monitor, RigidBody world-frame monitor; bounds-check sanitizer shards",
+        "aabb() of every collider type (+Margin), the free containment.*_aabb functions and hydroelastic RigidBody.aabb() are "
+        "executed on 5 000 (quick) / 100 000 (thorough) generated shapes (all rotation classes incl. tiny and product rotations) "
+        "and compared per axis and side with the oracle's support values (enclosure and tightness, 1e-9*L); pairs with a "
+        "certified common point must have overlapping boxes. Known findings K1 (ellipsoid under general rotation) and K2 "
+        "(RigidBody.aabb in body frame) are reported as KNOWN-FINDING and keyed by mechanism.",
+        "Trusted: oracle support values. Blind spots: ellipsoid boxes under non-axis-aligned rotation (K1), RigidBody.aabb with "
+        "non-identity pose (K2, still required to equal the exact body-frame bounds).",
+        "DESIGN.md section 4 C04")
+    reg("C05",
+        "executable-model monitor over insertion/query histories + icontract class invariant on the real AabbTree + crash containment (faulthandler children, bounds-check shards)",
+        "2 000 (quick) / 50 000 random + 1 728 exhaustive mode-sequence (thorough) histories of insert_aabb/insert_aabbs "
+        "(all modes, with/without payloads, hostile box families incl. touching lattice, zero-volume, nested, duplicate boxes) are "
+        "run against the real tree; every box query, tree-vs-tree query (other/self/empty) and root box is compared with a brute "
+        "force list model as multisets of (box, payload); a structural class invariant is evaluated after every public call; "
+        "segfaults and hangs of the compiled traversals are caught per shard.",
+        "Trusted: the 10-line closed-interval overlap model. A hang is declared after 150 s in one history (typical: milliseconds).",
+        "DESIGN.md section 4 C05")
